@@ -1,5 +1,5 @@
 H("c12_sampling", "C12", "seq", ["harness/c12_sampling.cc"], sdk=["common", "version", "resource", "trace"], cxxflags=["-fno-access-control"],
-  what="real TraceIdRatioBasedSampler over ~190 boundary ratios x trace ids located on every sampler's decision boundary by bisection (+-1, +-2, +-1024.., other byte orders, "
+  what="real TraceIdRatioBasedSampler over ~150 (thorough ~830) boundary ratios x trace ids located on every sampler's decision boundary by bisection (+-1, +-2, +-1024.., other byte orders, "
        "three low halves): never / always / independence per ratio, monotonicity over all ratio pairs; real ParentBasedSampler over 80 parents (validity shape x 5 flag "
        "bytes x remote x trace state) x 9 delegates incl. a recording sampler; AlwaysOn/AlwaysOff over the same parents; sampled flag of spans started through a real Tracer",
   design_ref="5/C12")
